@@ -128,6 +128,7 @@ def main():
     ap.add_argument("--seed", type=int, default=1)
     ap.add_argument("--only", default="")
     ap.add_argument("--point", action="append", default=[], help="FILE:K - run exactly this mutation point (repeatable)")
+    ap.add_argument("--checks", default="", help="with --point: the checks to run instead of the file's own list")
     ap.add_argument("--out", default=os.path.join(VERIF, "mutants", "results.jsonl"))
     a = ap.parse_args()
     subprocess.run(["go", "build", "-o", "/tmp/mutate", "."], cwd=os.path.join(VERIF, "lib", "mutate"), env=ENV, check=True)
@@ -135,7 +136,7 @@ def main():
     jobs = []
     for pt in a.point:
         f, k = pt.rsplit(":", 1)
-        jobs.append((f, int(k), dict(TARGETS)[f]))
+        jobs.append((f, int(k), a.checks.split() or dict(TARGETS)[f]))
     for f, checks in ([] if a.point else TARGETS):
         if a.only and a.only not in f:
             continue
